@@ -87,6 +87,33 @@ T = {
     change="Parser::advance sets error_since_advance when it skips a lexer Error token (src/skeleton/generated.rs)",
     needs="an Error token directly before a position where a syntax error is due or before a `&` return: the next diagnostic is swallowed / a valid rule is abandoned; every single tree stays lossless and well formed - visible only by comparing two parses",
     caught="the bounded relational check of C16 (parse with and without the skipped tokens): `removing the skipped tokens changes the diagnostics` in 20 units, with failing inputs (bounded); Verus rejects the `matches!(token, ..)` on a reference in the rewritten loop, so the skeleton units themselves are UNDECIDED"),
+ # ---- round 5 ------------------------------------------------------------------------------------
+ "k02": dict(prop="C02",
+    change="Parser::open_before inserts the new node first and closes the pending error node afterwards (skeleton and shipped front-end copy): the error node is closed at its index from before the insertion",
+    needs="open_before directly after a loop skipped tokens with advance_with_error (end of a conditionally elided rule, a node creation, an operator arm): the node in front of the error node is overwritten by the error header, the real placeholder stays open; extents still nest",
+    caught="Verus: inside Parser::open_before the precondition of close_error_node (tree invariant twf: the recorded error_node names the open error node on top of the stack) fails after the insertion, in every skeleton unit; tags C01, C02, C03, and C12 through the shipped copy (there with a failing input from the falsifier)"),
+ "k06": dict(prop="C06",
+    change="the follow arm of an emitted `+` loop clears error_since_advance before `break` (src/backend/rust.rs output_recovering_operation)",
+    needs="a `+` loop whose last operand fails at a token that is in the loop's (global) follow set but cannot follow this occurrence: the operand reports the token, the loop clears the flag, the caller reports the same token again",
+    caught="Verus: diag_ok (strictly increasing diagnostic positions) cannot be re-established after the direct write to the flag - failed [C06] obligations in every rule function with a `+` loop (fe_regen, q02_parts_shared, ...); the falsifier then finds inputs with two diagnostics on one token (replay files with input)"),
+ "k07": dict(prop="C07",
+    change="OperatorValidator::run returns as soon as every `right` token has been seen as the operator of a binary branch (src/frontend/sema.rs) - the set of pending tokens is shared by all rules, so later left-recursive rules are never visited",
+    needs="two left-recursive rules in one grammar, the `right` tokens all used by the earlier one: the later rule's right-associative branch keeps the unswapped powers and groups to the left",
+    caught="[C07] assertions `R == rbp_arm` (binding power passed for the right operand against the table read from the grammar text) and the loop exit condition fail in rule_t::rec of x17_two_pratt_rules",
+    extra={"first_run": "MISSED: no corpus grammar had two Pratt rules; x17_two_pratt_rules added (grammar shape), nothing else changed"}),
+ "k08": dict(prop="C08",
+    change="the emitted ordered choice resets in_ordered_choice inside the guarded last alternative instead of before it (src/backend/rust.rs): when no alternative applies the flag stays set after the choice",
+    needs="a token in no alternative's predict set at an ordered choice, and later a mismatch in a rule that is also used inside a choice: try_expect! returns None silently, node left open, no diagnostic",
+    caught="Verus: the [C08] postcondition `!old.flag ==> !final.flag` of every rule function containing an ordered choice fails (o03, o04, o05, o06, o09, kf_f5, kf_f9); the bounded stand-in finds inputs where the flag is still set when the root node is announced"),
+ "k12": dict(prop="C12",
+    change="lexer.rs parse_string bumps two bytes for every backslash (`an escape is always two bytes`)",
+    needs="a text that ends right after a backslash inside a string, or a multi-byte character after the backslash: logos' bump panics (`Invalid Lexer bump`)",
+    caught="bounded front-end stand-in (fecheck): panics on prefixes of the built-in lexer seeds and on byte-soup texts, with the failing texts (bounded)",
+    extra={"first_run": "MISSED: no seed grammar and no alphabet symbol of fecheck contained a backslash; built-in lexer seeds, LEXALPHA and the byte soup added (this also exposed F17 on the unchanged tree)"}),
+ "k16": dict(prop="C16",
+    change="Parser::peek_left: `.skip(lookbehind).find(not skipped)` instead of `.filter(not skipped).nth(lookbehind)` (skeleton and shipped copy)",
+    needs="peek_left(n), n >= 2, in a predicate with skipped tokens among the nearest n tokens: a different alternative is taken after inserting trivia",
+    caught="Kani leaf harness peek_left_matches_spec (bounded, <= 4 tokens) on the real text of Parser::peek_left fails in the skeleton units and the shipped front end"),
 }
 
 
